@@ -112,7 +112,13 @@ func verifRecord(h *Header, refs []*Reference) *Record {
 			seq[i] = "=ACMGRSVTWYHKDBN"[vrt.Byte("base")&15]
 		}
 		r.Seq = NewSeq(seq)
-		switch []int{2, 0, 1}[verifPick("cigar", 3, 2)] {
+		switch []int{3, 2, 0, 1}[verifPick("cigar", 4, 3)] {
+		case 3: // an operation that consumes no query, at the length limits of one BAM CIGAR word
+			big := []int{1<<28 - 1, 1<<28 - 2, 17}[verifPick("cigarbig", 3, 2)]
+			r.Cigar = Cigar{NewCigarOp(CigarMatch, 1), NewCigarOp(CigarSkipped, big)}
+			if L > 1 {
+				r.Cigar = append(r.Cigar, NewCigarOp(CigarMatch, L-1))
+			}
 		case 0: // no CIGAR
 		case 1:
 			r.Cigar = Cigar{NewCigarOp(CigarMatch, L)}
